@@ -52,6 +52,12 @@ Theorem C02_settles : forall depth s,
 Proof. intros depth s D R. apply round_settles; [exact D | exact (reachable_Inv depth s D R)]. Qed.
 Print Assumptions C02_settles.
 
+(* a round is itself a finite execution: all theorems apply again after any number of rounds *)
+Theorem C02_reachable_round : forall depth s,
+  0 <= depth -> reachable depth s -> reachable depth (round depth s).
+Proof. exact reachable_round. Qed.
+Print Assumptions C02_reachable_round.
+
 (* the model passes the whole oracle on every case (depth >= 0 is what writer.rs computes:
    min(depth as usize, 32)) *)
 Theorem C02_model_ok : forall c, 0 <= c_depth c -> ok c (run c) = true.
